@@ -1,13 +1,16 @@
 //! C08 (D): through tantivy: a schema with every fast type (and JSON sub-paths) ->
 //! SegmentReader::fast_fields(): values_for_doc / first / min_value / max_value / num_docs /
 //! get_docids_for_value_range, str / bytes ordinals + dictionary; before and after merges (with deletes).
-use std::collections::BTreeMap;
+use std::collections::{BTreeMap, BTreeSet};
+use std::ops::Bound;
 use std::net::Ipv6Addr;
 
 use serde_json::json;
 use tantivy::schema::{BytesOptions, DateOptions, DateTimePrecision, IpAddrOptions, JsonObjectOptions, OwnedValue, Schema, TextOptions, FAST, INDEXED};
 use tantivy::{DateTime, Index, IndexWriter, TantivyDocument, Term};
-use tantivy_columnar::DynamicColumn;
+use tantivy::collector::DocSetCollector;
+use tantivy::query::RangeQuery;
+use tantivy_columnar::{DynamicColumn, MonotonicallyMappableToU64};
 use tvh::guarded;
 use tvh::out::CaseOut;
 use tvh::rng::Rng;
@@ -201,6 +204,49 @@ fn check_segments(searcher: &tantivy::Searcher, docs: &[BTreeMap<&'static str, V
                     out.spec_checked(fail.is_none(), c2);
                     out.count("tantivy_columns_checked", 1);
                 }
+            }
+        }
+    }
+    // ---- RangeQuery on fast fields (user level): exactly the live documents holding a value in the range
+    let seg_ids: Vec<Vec<usize>> = searcher.segment_readers().iter().map(|seg| {
+        let c = seg.fast_fields().u64("id").unwrap(); (0..seg.max_doc()).map(|d| c.first(d).map(|v| v as usize).unwrap_or(usize::MAX)).collect() }).collect();
+    if !seg_ids.is_empty() && seg_ids.iter().flatten().all(|&i| i < docs.len()) {
+        for fname in ["u_full", "u_opt", "u_multi", "i_opt", "i_multi", "d_nanos"] {
+            let field = searcher.schema().get_field(fname).map_err(|e| e.to_string())?;
+            let mapped = |v: &Val| -> u64 { match v { Val::U(x) => *x, Val::I(x) => x.to_u64(), Val::D(n) => n.to_u64(), _ => 0 } };
+            let term = |m: u64| -> Term { match fname.as_bytes()[0] { b'u' => Term::from_field_u64(field, m), b'i' => Term::from_field_i64(field, i64::from_u64(m)), _ => Term::from_field_date(field, DateTime::from_timestamp_nanos(i64::from_u64(m))) } };
+            let alive = |i: usize| !deleted.map(|d| d[i]).unwrap_or(false);
+            // min / gcd of the column of one segment (the bit-packed reader works relative to them)
+            let si = rng.below(seg_ids.len() as u64) as usize;
+            let seg_vals: Vec<u128> = seg_ids[si].iter().flat_map(|&i| docs[i][fname].iter().map(|v| mapped(v) as u128)).collect();
+            if seg_vals.is_empty() { continue; }
+            let mn = *seg_vals.iter().min().unwrap();
+            let g = super::gcd_to_min(&seg_vals, mn);
+            for qi in 0..6 {
+                let (lo, hi): (u64, u64) = match qi {
+                    0 | 1 | 4 | 5 => { let hi = super::u32_boundary_bound(rng, mn, g, u64::MAX as u128) as u64;
+                               // mostly strictly above the column minimum: otherwise RangeQuery short-cuts to "all documents" when hi >= column max
+                               let lo = match rng.below(6) { 0 => super::u32_boundary_bound(rng, mn, g, u64::MAX as u128) as u64, 1 => 0, 2 => mn as u64, _ => (mn as u64).saturating_add(1 + rng.below(50)) };
+                               (lo.min(hi), lo.max(hi)) }
+                    2 if mn > 0 => { let h = rng.below(mn as u64); (rng.below(h + 1), h) }
+                    _ => { let a = seg_vals[rng.below(seg_vals.len() as u64) as usize] as u64; let b = seg_vals[rng.below(seg_vals.len() as u64) as usize] as u64; (a.min(b), a.max(b)) }
+                };
+                let want: BTreeSet<usize> = seg_ids.iter().flatten().copied().filter(|&i| alive(i) && docs[i][fname].iter().any(|v| { let m = mapped(v); lo <= m && m <= hi })).collect();
+                if lo as u128 > mn && super::u32_wrap_sensitive(&seg_vals, g, lo as u128, hi as u128) { out.count("tantivy_range_queries_sensitive_to_u32_wrap", 1); }
+                let q = RangeQuery::new(Bound::Included(term(lo)), Bound::Included(term(hi)));
+                let d = json!({"what": "RangeQuery on a fast field != live documents holding a value in the range", "index": ix, "phase": phase, "field": fname, "lo_mapped": lo.to_string(), "hi_mapped": hi.to_string(),
+                               "segment_col_min": mn.to_string(), "segment_col_gcd": g.to_string(), "u32_boundary": qi < 2 || qi > 3});
+                match guarded(|| searcher.search(&q, &DocSetCollector)) {
+                    Err(p) => { let mut d = d; d["panic"] = json!(p); out.spec_checked(false, d); }
+                    Ok(Err(e)) => { let mut d = d; d["error"] = json!(e.to_string()); out.spec_checked(false, d); }
+                    Ok(Ok(set)) => {
+                        let got: BTreeSet<usize> = set.iter().map(|a| seg_ids[a.segment_ord as usize][a.doc_id as usize]).collect();
+                        let mut d = d; if got != want { d["got_len"] = json!(got.len()); d["want_len"] = json!(want.len()); }
+                        out.spec_checked(got == want, d);
+                    }
+                }
+                out.count("tantivy_range_queries", 1);
+                if qi < 2 || qi > 3 { out.count("tantivy_range_queries_u32_boundary", 1); }
             }
         }
     }
